@@ -1,20 +1,22 @@
 import GeomV.C10.LemmasR
+import GeomV.C10.Proofs
 /-!
-# C10 — the memory model refines the functional model (partial: Point, MultiPoint, LineString; nil transformer
-for every type)
+# C10 — the memory model refines the functional model (all eight types, any nesting, any memory layout)
 
-`C10_input_unchanged` is a theorem about the memory model `Mem.lean`; `C10_structure` etc. are theorems about
-the functional model `GeomTransform.lean`.  That the two describe the same `Transform` was an executable
-check only (the judge decodes the memory model's result on every `gt` line).  Here it is a theorem for the
-types whose `Transform` is the point-slice loop.
+`C10_input_unchanged` is a theorem about the memory model `Mem.lean`; `C10_structure`, `C10_map_vertices`,
+`C10_error_no_panic` are theorems about the functional model `GeomTransform.lean`.  That the two describe
+the same `Transform` used to be an executable check only (the judge decodes the memory model's result on
+every `gt` line, with the `readArr`/`decodeGeom` of `MemDecode.lean` used here).  It is now a theorem:
+`C10_mem_refines` — for every memory, every value that reads as the functional geometry `G`, every non-nil
+transformer, the memory model's outcome reads as the functional model's outcome (same failure on failure);
+`C10_mem_refines_nil` for the nil transformer; `C10_mem_vertices` = composition with `C10_map_vertices`.
 
-Full statement (NOT proved; missing: Polygon/`*Bounds` (outer loop over `paths` with an allocation per ring),
-MultiLineString, MultiPolygon, GeometryCollection — they need the invariant "headers already stored in the
-destination array keep decoding to the same lists while later iterations allocate and fill new arrays"):
-  ∀ m g G fuel t, decodeGeom m fuel g = some G → noNil G → fuel' ≥ depth G →
-    match transform t G with
-    | .ok G' => ∃ g', (transformTop zero fuel' t g m).2 = .ok g' ∧ decodeGeom (transformTop …).1 fuel g' = some G'
-    | .error e => (transformTop zero fuel' t g m).2 = .error e
+Proof structure (`LemmasR.lean`): `loopN_pts` (the point loop writes exactly `ptsT`'s answer into the new
+array), `loopN_hdrLoop` (Polygon's outer loop and MultiLineString's loop: explicit result memory),
+`loopN_polys` (MultiPolygon: headers of earlier iterations keep decoding because later iterations only
+append), `loopN_coll` + `memberOK_all` (GeometryCollection, induction on the recursion budget; the
+destination array of an enclosing loop is rewritten by later iterations, so members are decoded in a memory
+where that array is blanked out — `Mem.poison` — which proves they never read it).
 -/
 set_option linter.unusedSimpArgs false
 namespace GeomV.C10
@@ -27,20 +29,6 @@ def Mem.flat : MGeom α → Bool
   | .point _ | .multiPoint _ | .lineString _ | .polygon _ | .bounds _ | .multiLineString _ | .multiPolygon _ => true
   | _ => false
 
-theorem decodeGeom_multiPolygon (m : Mem α) (k : Nat) (s : Slice) :
-    decodeGeom m (k+1) (.multiPolygon s) =
-      match readArr m.polys s with
-      | none => none
-      | some ps => (ps.mapM (decodePoly m.pts m.paths)).map Geom.multiPolygon := by
-  have hfun : (fun p => (do let hs ← readArr m.paths p; hs.mapM (readArr m.pts) : Option _)) = decodePoly m.pts m.paths := by
-    funext p; unfold decodePoly; cases readArr m.paths p <;> rfl
-  simp only [decodeGeom]
-  rw [hfun]
-  cases readArr m.polys s with
-  | none => rfl
-  | some ps =>
-    cases h : ps.mapM (decodePoly m.pts m.paths) <;> simp [h, bind, Option.bind, pure]
-
 /-- the ring `(*Bounds).Transform` builds -/
 abbrev boundsRing4 (mn mx : Pt α) : List (Pt α) := [mn, ⟨mx.x, mn.y⟩, mx, ⟨mn.x, mx.y⟩]
 
@@ -48,12 +36,12 @@ abbrev boundsRing4 (mn mx : Pt α) : List (Pt α) := [mn, ⟨mx.x, mn.y⟩, mx, 
 abbrev boundsMem (m : Mem α) (mn mx : Pt α) : Mem α :=
   { m with pts := m.pts ++ [boundsRing4 mn mx], paths := m.paths ++ [[(⟨m.pts.length, 0, 4⟩ : Slice)]] }
 
-/-- **C10_mem_refines_partial** (ties "leaves the input untouched" to "same type and nesting / i-th vertex /
+/-- **C10_mem_refines_flat** (the seven non-collection types; ties "leaves the input untouched" to "same type and nesting / i-th vertex /
 error"): for every memory, every Point / MultiPoint / LineString value `g` in it that reads as the functional
 geometry `G`, every non-nil transformer and every positive recursion budget: if the functional model succeeds
 with `G'`, the memory model succeeds with a value that reads — in the memory after the call — as `G'`; if the
 functional model fails (transformer error), the memory model fails with the same error. -/
-theorem C10_mem_refines_partial (zero : Pt α) (fuel : Nat) (t : TF E α) (g : MGeom α) (m : Mem α) (G : Geom α)
+theorem C10_mem_refines_flat (zero : Pt α) (fuel : Nat) (t : TF E α) (g : MGeom α) (m : Mem α) (G : Geom α)
     (hf : Mem.flat g = true) (hd : decodeGeom m 1 g = some G) :
     (∀ G', transform (some t) G = .ok G' →
       ∃ g', (transformTop zero (fuel+1) (some t) g m).2 = .ok g' ∧
@@ -203,6 +191,225 @@ theorem C10_mem_refines_partial (zero : Pt α) (fuel : Nat) (t : TF E α) (g : M
           simp at this; subst this
           simp
   | _ => simp [Mem.flat] at hf
+
+
+theorem poison_false (m : Mem α) : Mem.poison (fun _ => false) m = m := by
+  unfold Mem.poison; rw [pz_false]
+
+theorem mapM_fuel0 (m : Mem α) (gs : List (MGeom α)) (Gs : List (Geom α))
+    (h : gs.mapM (decodeGeom m 0) = some Gs) : gs = [] := by
+  cases gs with
+  | nil => rfl
+  | cons a as => simp [List.mapM_cons, decodeGeom, bind, Option.bind] at h
+
+/-- a value that decodes with fuel 1 decodes to the same geometry with any fuel and any blanking -/
+theorem decode1_poison (bad : Nat → Bool) (m : Mem α) (k : Nat) (g : MGeom α) (G : Geom α)
+    (h : decodeGeom m 1 g = some G) : decodeGeom (Mem.poison bad m) (k+1) g = some G := by
+  cases g with
+  | collection s =>
+    rw [decodeGeom_collection] at h ⊢
+    cases hr : readArr m.geoms s with
+    | none => simp [hr] at h
+    | some gs =>
+      simp only [hr] at h
+      cases hm : gs.mapM (decodeGeom m 0) with
+      | none => simp [hm] at h
+      | some Gs =>
+        have hnil := mapM_fuel0 m gs Gs hm
+        subst hnil
+        simp at hm; subst hm
+        simp at h; subst h
+        have hl := readArr_len _ _ _ hr
+        simp at hl
+        have : readArr (Mem.poison bad m).geoms s = some [] := by simp [readArr, hl.symm]
+        simp [this]
+  | _ => exact h
+
+theorem transform_some_eq (t : TF E α) (G : Geom α) : transform (some t) G = transformS t G := by
+  cases G <;> rfl
+
+theorem memberOK_all (zero : Pt α) (t : TF E α) : ∀ d, MemberOK zero t d := by
+  intro d
+  induction d with
+  | zero => intro g m G bad hbl h; simp [decodeGeom] at h
+  | succ d ih =>
+    intro g m G bad hbl hdec
+    -- the seven non-collection types: from the flat refinement theorem
+    have flatCase : ∀ (hf : Mem.flat g = true) (hd1 : decodeGeom m 1 g = some G)
+        (htop : transformTop zero (d+1) (some t) g m = transformM zero t (d+1) g m),
+        (∀ G', transformS t G = .ok G' →
+          ∃ m' g', transformM zero t (d+1) g m = (m', .ok g') ∧
+            decodeGeom (Mem.poison bad m') (d+1) g' = some G') ∧
+        (∀ e, transformS t G = .error e → (transformM zero t (d+1) g m).2 = .error e) := by
+      intro hf hd1 htop
+      obtain ⟨p1, p2⟩ := C10_mem_refines_flat zero d t g m G hf hd1
+      rw [transform_some_eq, htop] at p1 p2
+      refine ⟨?_, p2⟩
+      intro G' hG'
+      obtain ⟨g', e1, e2⟩ := p1 G' hG'
+      refine ⟨(transformM zero t (d+1) g m).1, g', ?_, decode1_poison bad _ d g' G' e2⟩
+      rw [← e1]
+    cases g with
+    | point p => exact flatCase rfl hdec rfl
+    | multiPoint s => exact flatCase rfl hdec rfl
+    | lineString s => exact flatCase rfl hdec rfl
+    | multiLineString s => exact flatCase rfl hdec rfl
+    | polygon s => exact flatCase rfl hdec rfl
+    | multiPolygon s => exact flatCase rfl hdec rfl
+    | bounds a => exact flatCase rfl hdec rfl
+    | nil =>
+      simp [decodeGeom] at hdec; subst hdec
+      refine ⟨fun G' h => by simp [transformS] at h, fun e h => ?_⟩
+      simp [transformS] at h; subst h
+      simp [transformM]
+    | collection s =>
+      rw [decodeGeom_collection] at hdec
+      cases hr : readArr (Mem.poison bad m).geoms s with
+      | none => simp [hr] at hdec
+      | some gs =>
+        simp only [hr] at hdec
+        cases hm : gs.mapM (decodeGeom (Mem.poison bad m) d) with
+        | none => simp [hm] at hdec
+        | some Gs =>
+          simp [hm] at hdec; subst hdec
+          -- the receiver's window in the real memory
+          have hr0 : readArr m.geoms s = some gs := by
+            have := readArr_pz_weaken (fun _ => false) bad (fun i h => by simp at h) m.geoms s gs hr
+            rwa [pz_false] at this
+          have hgrowA : Grow m { m with geoms := m.geoms ++ [List.replicate s.len MGeom.nil] } :=
+            ⟨by simp, by simp, by simp, by simp, rfl⟩
+          let bad' : Nat → Bool := fun a => bad a || a == m.geoms.length
+          have hbd' : bad' m.geoms.length = true := by simp [bad']
+          have hsub : ∀ i, bad i = true → bad' i = true := by intro i h; simp [bad', h]
+          have hgp : Grow (Mem.poison bad m)
+              (Mem.poison bad' { m with geoms := m.geoms ++ [List.replicate s.len MGeom.nil] }) := by
+            apply hgrowA.poison bad bad'
+            intro a ha
+            have : (a == m.geoms.length) = false := by simp; omega
+            simp [bad', this]
+          have hbl' : ∀ a, bad' a = true →
+              a < ({ m with geoms := m.geoms ++ [List.replicate s.len MGeom.nil] } : Mem α).geoms.length := by
+            intro a ha
+            simp only [bad', Bool.or_eq_true, beq_iff_eq] at ha
+            simp
+            rcases ha with ha | ha
+            · have := hbl a ha; omega
+            · omega
+          simp only [transformS, transformM, aAlloc]
+          by_cases h0 : s.len = 0
+          · have hgs : gs = [] := by
+              have := readArr_len _ _ _ hr0; exact List.eq_nil_of_length_eq_zero (by omega)
+            subst hgs
+            simp at hm; subst hm
+            refine ⟨?_, ?_⟩
+            · intro G' hG'
+              simp [collLoop] at hG'; subst hG'
+              refine ⟨{ m with geoms := m.geoms ++ [[]] }, .collection ⟨m.geoms.length, 0, 0⟩, by simp [h0, loopN], ?_⟩
+              rw [decodeGeom_collection]
+              simp [readArr]
+            · intro e he; simp [collLoop] at he
+          · unfold readArr at hr0
+            simp only [h0, if_false] at hr0
+            cases hsrc : m.geoms[s.addr]? with
+            | none => simp [hsrc] at hr0
+            | some srcG =>
+              simp only [hsrc] at hr0
+              by_cases hle : s.off + s.len ≤ srcG.length
+              · simp only [hle, if_true] at hr0
+                cases hr0
+                have hslt : s.addr < m.geoms.length := (List.getElem?_eq_some_iff.mp hsrc).1
+                have hs1 : (m.geoms ++ [List.replicate s.len MGeom.nil])[s.addr]? = some srcG := by
+                  rw [List.getElem?_append_left hslt]; exact hsrc
+                have hd1 : (m.geoms ++ [List.replicate s.len (MGeom.nil : MGeom α)])[m.geoms.length]? =
+                    some (List.replicate s.len MGeom.nil) := by simp
+                have hmem : ((srcG.drop (s.off + 0)).take s.len).mapM
+                    (decodeGeom (Mem.poison bad' { m with geoms := m.geoms ++ [List.replicate s.len MGeom.nil] }) d)
+                    = some Gs := by
+                  simp only [Nat.add_zero]
+                  exact mapM_congr_some _ _ _ Gs (fun x _ y hy => decodeGeom_grow _ _ hgp d x y hy) hm
+                have key := loopN_coll zero t d ih s m.geoms.length bad' hbd' s.len 0
+                  { m with geoms := m.geoms ++ [List.replicate s.len MGeom.nil] } srcG
+                  (List.replicate s.len MGeom.nil) Gs hbl' hs1 hd1 (by omega) (by simp) (by omega) hmem
+                refine ⟨?_, ?_⟩
+                · intro G' hG'
+                  cases hcl : collLoop t Gs with
+                  | error e => simp [hcl] at hG'
+                  | ok Gs' =>
+                    simp [hcl] at hG'; subst hG'
+                    obtain ⟨m', newG, hl, hgd, hlen, hdecs, _⟩ := key.1 Gs' hcl
+                    simp at hgd
+                    refine ⟨m', .collection ⟨m.geoms.length, 0, s.len⟩, by rw [hl], ?_⟩
+                    rw [decodeGeom_collection]
+                    have hnb : bad m.geoms.length = false := by
+                      cases hb : bad m.geoms.length with
+                      | false => rfl
+                      | true => have := hbl _ hb; omega
+                    have hrd : readArr (Mem.poison bad m').geoms ⟨m.geoms.length, 0, s.len⟩ = some newG := by
+                      show readArr (pz bad 0 m'.geoms) _ = _
+                      unfold readArr
+                      simp [h0, pz_getElem?, hgd, hnb, hlen]
+                      exact List.take_of_length_le (by omega)
+                    simp only [hrd]
+                    have := mapM_congr_some _ (decodeGeom (Mem.poison bad m') d) newG Gs'
+                      (fun x _ y hy => decodeGeom_weaken bad bad' hsub m' d x y hy) hdecs
+                    simp [this]
+                · intro e he
+                  cases hcl : collLoop t Gs with
+                  | ok r => simp [hcl] at he
+                  | error e' =>
+                    simp [hcl] at he; subst he
+                    have := key.2 e' hcl
+                    generalize loopN (collBody (transformM zero t d) s m.geoms.length) 0 s.len
+                      { m with geoms := m.geoms ++ [List.replicate s.len MGeom.nil] } = res at this ⊢
+                    obtain ⟨m2, rr⟩ := res
+                    cases rr with
+                    | error e'' => simp at this; simp [this]
+                    | ok u => simp at this
+              · simp [hle] at hr0
+
+/-- **C10_mem_refines** (ties the clause "leaves the input untouched", proved on the memory model, to the
+clauses "same type and nesting / i-th vertex / returns the transformer's error", proved on the functional
+model): for EVERY memory `m` (any sharing of backing arrays), every value `g` of ANY of the eight types and
+any nesting that reads in `m` as the functional geometry `G` (recursion budget `d`, nil members included),
+every non-nil transformer: if the functional model `transform` succeeds with `G'`, the memory model
+`transformTop` succeeds with a value that reads — in the memory after the call — as `G'`; if the functional
+model fails (the transformer's error at the first failing vertex, or the panic on a nil member), the memory
+model fails with exactly the same failure. -/
+theorem C10_mem_refines (zero : Pt α) (d : Nat) (t : TF E α) (g : MGeom α) (m : Mem α) (G : Geom α)
+    (hd : decodeGeom m d g = some G) :
+    (∀ G', transform (some t) G = .ok G' →
+      ∃ g', (transformTop zero d (some t) g m).2 = .ok g' ∧
+        decodeGeom (transformTop zero d (some t) g m).1 d g' = some G') ∧
+    (∀ e, transform (some t) G = .error e → (transformTop zero d (some t) g m).2 = .error e) := by
+  cases d with
+  | zero => simp [decodeGeom] at hd
+  | succ k =>
+    have htop : transformTop zero (k+1) (some t) g m = transformM zero t (k+1) g m := by
+      cases g <;> rfl
+    have hd' : decodeGeom (Mem.poison (fun _ => false) m) (k+1) g = some G := by rwa [poison_false]
+    obtain ⟨p1, p2⟩ := memberOK_all zero t (k+1) g m G (fun _ => false) (fun a h => by simp at h) hd'
+    rw [transform_some_eq, htop]
+    refine ⟨?_, p2⟩
+    intro G' hG'
+    obtain ⟨m', g', e1, e2⟩ := p1 G' hG'
+    rw [poison_false] at e2
+    exact ⟨g', by rw [e1], by rw [e1]; exact e2⟩
+
+/-- **C10_mem_vertices**: the refinement composed with `C10_map_vertices` — on the memory model itself, for
+every layout: a geometry without nil members that reads as `G` is turned into one that reads as
+`mapVertices t G` (same type and nesting, i-th vertex = t(i-th vertex)), or the call returns the first
+failing vertex's error. -/
+theorem C10_mem_vertices (zero : Pt α) (d : Nat) (t : TF E α) (g : MGeom α) (m : Mem α) (G : Geom α)
+    (hd : decodeGeom m d g = some G) (hn : noNil G = true) :
+    match Spec.mapVertices t G with
+    | .ok G' => ∃ g', (transformTop zero d (some t) g m).2 = .ok g' ∧
+        decodeGeom (transformTop zero d (some t) g m).1 d g' = some G'
+    | .error e => (transformTop zero d (some t) g m).2 = .error (.err e) := by
+  obtain ⟨p1, p2⟩ := C10_mem_refines zero d t g m G hd
+  have hmv := C10_map_vertices t G hn
+  cases hv : Spec.mapVertices t G with
+  | ok G' => simp only [hv] at hmv; exact p1 G' (by rw [hmv]; rfl)
+  | error e => simp only [hv] at hmv; exact p2 _ (by rw [hmv]; rfl)
 
 /-- **C10_mem_refines_nil**: with a nil transformer the memory model returns the receiver in the unchanged
 memory, for EVERY type and nesting — so whatever it read as before, it reads as after, which is the
